@@ -7,6 +7,7 @@ import OFV.Spec.C14
 import OFV.Proofs.C14Swap
 import OFV.Proofs.C14Gates
 import OFV.Proofs.C14Ffft
+import OFV.Proofs.C14Givens
 
 namespace OFV.C14
 open OFV.Model.C14 OFV.Spec.C14
@@ -56,6 +57,48 @@ example : swapOk 3 [2, 1, 0] [(0, 1, 0, 1), (0, 2, 1, 2)] = false := by decide
 example : (swapNetwork 4 false).2 =
     [(0, 1, 0, 1), (2, 3, 2, 3), (0, 3, 1, 2), (1, 3, 0, 1), (0, 2, 2, 3), (1, 2, 1, 2)] := by decide
 example : (swapNetwork 4 true).1 = [3, 2, 1, 0] := by decide
+
+/-! ## Givens-network primitives: structure of the emitted circuit -/
+
+/-- Structure theorem for `_slater_basis_change` / `prepare_slater_determinant`-style circuits whose
+description comes from the C11 schedule of `givens_decomposition_square` (every layer a sub-list of the
+rotations of one iteration `k`; in any order of layers, so also for the `reversed(...)` the code applies):
+the emitted operations are `Ryxxy` on ADJACENT qubits `(a, a+1)` inside the register followed by a `Z**φ`
+on the upper one, never an `X`, and the rotations of one layer act on pairwise DISJOINT qubit pairs — the
+layers can be executed in parallel on a linear array. -/
+theorem slater_circuit_structure (n : Nat) (desc : List (List (Option (Nat × Nat × Nat))))
+    (h : FromSquareSchedule n desc) :
+    (∀ o ∈ givensOps n desc, match o with
+      | .x _ => False
+      | .ryxxy a b _ => b = a + 1 ∧ b < n
+      | .zpow b _ => 0 < b ∧ b < n) ∧
+    (∀ layer ∈ desc, ∀ a b p a' b' p', some (a, b, p) ∈ layer → some (a', b', p') ∈ layer →
+      (a, b) ≠ (a', b') → b + 2 ≤ b' ∨ b' + 2 ≤ b) := by
+  constructor
+  · intro o ho
+    unfold givensOps at ho
+    rw [List.mem_flatMap] at ho
+    obtain ⟨layer, hl, ho⟩ := ho
+    rw [List.mem_flatMap] at ho
+    obtain ⟨op, hop, ho⟩ := ho
+    obtain ⟨k, hk⟩ := h layer hl
+    obtain ⟨a, b, p, rfl, hab⟩ := hk op hop
+    obtain ⟨h1, h2⟩ := slaterLayerPairs_adjacent n k a b hab
+    simp only [List.mem_cons, List.not_mem_nil, or_false] at ho
+    rcases ho with rfl | rfl
+    · exact ⟨h1, h2⟩
+    · exact ⟨by omega, h2⟩
+  · intro layer hl a b p a' b' p' h1 h2 hne
+    obtain ⟨k, hk⟩ := h layer hl
+    obtain ⟨a1, b1, p1, e1, m1⟩ := hk _ h1
+    obtain ⟨a2, b2, p2, e2, m2⟩ := hk _ h2
+    simp only [Option.some.injEq, Prod.mk.injEq] at e1 e2
+    obtain ⟨rfl, rfl, rfl⟩ := e1
+    obtain ⟨rfl, rfl, rfl⟩ := e2
+    exact slaterLayerPairs_disjoint n k _ _ _ _ m1 m2 hne
+
+/-- non-vacuity: the full schedule for `n = 4` is such a description (and is not empty) -/
+example : slaterSchedulePairs 4 = [[(2, 3)], [(1, 2)], [(0, 1), (2, 3)], [(1, 2)], [(2, 3)]] := by decide
 
 /-! ## ffft: Cooley–Tukey index recursion (partial: exponents, not the unitary) -/
 
